@@ -1,5 +1,5 @@
 //@unit fibernew
-//@property C16
+//@property C09
 // Creating a fiber (yarel/src/core.rs fiber_init = `Fiber(f)`, fiber_has_finished; yarel/src/object.rs ObjFiber::new,
 // ObjFiber::is_new, ObjFiber::has_finished; yarel/src/vm.rs Vm::new_root_obj_fiber): a new fiber is a fiber of its OWN —
 // one frame for the given function, positioned at the function's first instruction, an empty value stack, no caller,
@@ -91,7 +91,7 @@ impl ObjFiber {
         &&& self.call_arity == closure.obj().function.obj().arity
     }
 
-    //@fn file=yarel/src/object.rs path=ObjFiber::new ret=r props=C16
+    //@fn file=yarel/src/object.rs path=ObjFiber::new ret=r props=C09
     //@  subst "closure.function.chunk.code.as_ptr()" => "code_start(&closure)"
     //@  subst "Vec::with_capacity(common::FRAMES_MAX)" => "vec_with_capacity(FRAMES_MAX)"
     //@  subst "Vec::new()" => "vec_new()"
@@ -103,12 +103,12 @@ impl ObjFiber {
 
     pub open spec fn new_fiber(&self) -> bool { self.frames@.len() == 1 && self.frames@[0].ip == self.frames@[0].closure.obj().function.obj().code_start }
 
-    //@fn file=yarel/src/object.rs path=ObjFiber::is_new ret=r props=C16
+    //@fn file=yarel/src/object.rs path=ObjFiber::is_new ret=r props=C09
     //@  subst "self.frames[0].closure.function.chunk.code.as_ptr()" => "code_start(&self.frames[0].closure)"
     //@  ensures @a_fiber_is_new_until_its_first_instruction_has_run r == self.new_fiber()
     //@end
 
-    //@fn file=yarel/src/object.rs path=ObjFiber::has_finished ret=r props=C16
+    //@fn file=yarel/src/object.rs path=ObjFiber::has_finished ret=r props=C09
     //@  ensures @a_fiber_has_finished_when_no_frame_is_left r == (self.frames@.len() == 0)
     //@end
 }
@@ -137,7 +137,7 @@ impl Vm {
     #[verifier::external_body]
     fn peek(&self, depth: usize) -> (r: Value) requires depth < self.stack.view.len() ensures r == self.stack.view[self.stack.view.len() - 1 - depth] { unimplemented!() }
 
-    //@fn file=yarel/src/vm.rs path=Vm::new_root_obj_fiber ret=r props=C16
+    //@fn file=yarel/src/vm.rs path=Vm::new_root_obj_fiber ret=r props=C09
     //@  wrap "Root::new(RefCell::new(" => "self.alloc_fiber("
     //@  ensures @a_new_fiber_object_is_a_new_cell_of_the_fiber_class r.obj().v.fresh_for(closure) && r.obj().v.class == old(self).class_store.fiber_cls && !old(self).fibers.contains(r.id()) && final(self).fibers == old(self).fibers.insert(r.id())
     //@  ensures final(self).stack == old(self).stack, final(self).class_store == old(self).class_store
@@ -151,7 +151,7 @@ impl Vm {
 //@end
 
 // Fiber(f)
-//@fn file=yarel/src/core.rs path=fiber_init ret=r props=C16,C02
+//@fn file=yarel/src/core.rs path=fiber_init ret=r props=C09,C02
 //@  rewrite R1 R16
 //@  requires old(vm).stack.view.len() > 0
 //@  ensures @a_wrong_argument_count_or_a_non_function_is_a_type_error_and_no_fiber_is_made (num_args != 1 || !(old(vm).stack.view.last() is ObjClosure)) ==> (r matches Err(e) && e.kind is TypeError) && final(vm).fibers == old(vm).fibers
@@ -161,7 +161,7 @@ impl Vm {
 //@end
 
 // f.has_finished()
-//@fn file=yarel/src/core.rs path=fiber_has_finished ret=r props=C16
+//@fn file=yarel/src/core.rs path=fiber_has_finished ret=r props=C09
 //@  rewrite R1
 //@  subst ".try_as_obj_fiber().expect(\"Expected ObjFiber.\")" => ".try_as_obj_fiber().unwrap()"
 //@  requires old(vm).stack.view.len() > 0, old(vm).stack.view.last() is ObjFiber
